@@ -52,6 +52,13 @@ Definition slice {A} (l : list A) (lo hi : Z) : res (list A) :=
   then Ok (firstn (Z.to_nat (hi - lo)) (skipn (Z.to_nat lo) l))
   else Err OOB.
 
+(* a[lo:hi] = v with 0 <= lo <= hi <= len and len v = hi - lo (numpy raises on any other length; Python would clamp an
+   upper bound past the end, after which the lengths differ and numpy raises as well) *)
+Definition set_slice {A} (l : list A) (lo hi : Z) (v : list A) : res (list A) :=
+  if ((0 <=? lo) && (lo <=? hi) && (hi <=? Z.of_nat (length l)) && (Z.of_nat (length v) =? hi - lo))%Z
+  then Ok (firstn (Z.to_nat lo) l ++ v ++ skipn (Z.to_nat hi) l)
+  else Err OOB.
+
 (* fancy indexing a[idxs] *)
 Fixpoint gather {A} (l : list A) (idxs : list Z) : res (list A) :=
   match idxs with
